@@ -191,10 +191,19 @@ CLAIMED = {
     },
 }
 
-NOT_APPLICABLE = {
-    'C06': 'purely index-arithmetic guarantee (chunk boundaries, removerange splitting, descending application order); '
-           'no sound structural clause beyond those decided under C05/C09, see DESIGN.md',
+CLAIMED['C06'] = {
+    'text': 'Structure of the pipeline a disjoint merge travels through, each clause a necessary condition of the guarantee '
+            '(re-using rules of C05/C09/C10 on the current tree): one-sided chunks/keys reach the strategy-free one-sided arm first '
+            '(R05.1, evaluator over all chunk types and op pairs); strategies never touch unconflicted decisions (R05.2); no use-* arm '
+            'shadows a non-conflict arm (R10.5); both sides\' diffs are always computed, no equality shortcut (R09.9); mergers only add '
+            'decisions, which carry both diffs and are sorted once (R09.10, R09.6, R09.3); entries re-sorted by key while applying '
+            'decisions keep input order at equal keys, so an inserted cell stays in front of the edited cell it precedes (R09.8).' + _SUFFIX,
+    'note': 'The guarantee proper -- chunk-boundary arithmetic, removerange splitting, offsets during descending application -- is index '
+            'arithmetic and NOT decided; an off-by-one there is invisible to these rules. Claimed only for the pipeline shape.',
+    'technique': 'static analysis: partial evaluation of arm precedence + guard dominance + construction-order check before stable sorts',
 }
+
+NOT_APPLICABLE = {}
 for _p in ['C%02d' % i for i in range(1, 21)]:
     if _p not in CLAIMED and _p not in NOT_APPLICABLE:
         NOT_APPLICABLE[_p] = 'check not built yet in this revision of /verif (planned, see DESIGN.md section 3)'
@@ -202,3 +211,32 @@ for _p in ['C%02d' % i for i in range(1, 21)]:
 NOTES = ('All checks are static (family: static analysis); they parse /repo on every run and never import nbdime. '
          'Exit 2 + ANALYSIS-ERROR means an anchor vanished or the analyser failed -- not a verdict. '
          'known_findings.json lists genuine defects recorded rather than repaired, keyed by rule/function/construct.')
+
+# Rules added after the first build (DESIGN.md section 8): one sentence each, appended to the claim text.
+MORE = {
+    'C01': 'R01.4 differ and patcher split lines with the same primitive; R01.5 the codec/escaping nbdiff --out writes the diff file with is one nbpatch decodes identically under every locale.',
+    'C02': 'R02.5 no dict/set lookup on the diff path is keyed by document items; R02.6 one line-splitting primitive at every line-key site.',
+    'C03': 'R03.7 index algebra of the concurrent-insert splitter is consistent across arms; R03.8 constant indices into possibly empty line lists are guarded (loop variables over such lists included); '
+           'R03.9 the per-field dispatch for merged similar inserts covers every cell field of the schema; R03.10 a base container is indexed with a diff/decision key only with evidence that the key exists '
+           '(bound test, patch/remove chunk type, or a strategy that the table attaches to schema-required fields only); R03.11 no raise/assert is reachable for a text-merge exit status in 0..127.',
+    'C04': 'R04.4 take_max reads each side\'s own value and the maximum ranges over base, local and remote.',
+    'C05': 'R05.4 adjacent assignments to a local/remote pair of names are mirror images of each other (48 pairs).',
+    'C07': 'R07.5 the merged text is the tool\'s stdout only (stderr is not redirected into it).',
+    'C08': 'R08.6 log records never go to stdout; R08.7 an unreadable input is replaced by an empty notebook only behind a pure emptiness test.',
+    'C09': 'R09.5 cursor algebra of _split_addrange; R09.6 two-sided decisions carry both diffs; R09.7 no truthiness test of a diff key / path element; R09.8 entries re-sorted by key alone were appended one by one '
+           '(stable order at equal keys); R09.9 no ==/!= between base, local and remote decides "unchanged"; R09.10 the mergers only add decisions.',
+    'C10': 'R10.4 conflicted decisions created by the mergers carry no strategy tag; R10.5 no use-* arm precedes an arm that settles a non-conflict; R10.6 every *strategy variable of the mergers is a lookup of its own path in the strategy table.',
+    'C11': 'R11.5/R11.6 nested patches are keyed by the base index / the iteration key itself; R11.7 no truthiness test of a diff key; R11.9 add vs replace of one key is decided by membership; '
+           'R11.2 covers every wrapping of a decision diff into patch entries (op_patch or push_path) behind a truthiness test of that diff.',
+    'C12': 'R12.1 also covers `global` rebinding of non-container module names on the path; R12.6 value-equality classes used as cache keys compare every field their behaviour reads.',
+    'C13': 'R13.3 values reached through diff-entry fields are input data wherever found; summaries distinguish top-level from deep mutation, so a callee that modifies ELEMENTS is charged to callers passing a fresh list of caller-owned entries; '
+           'private helpers whose every call site passes fresh objects are exempt from the input-data assumption.',
+    'C14': 'R14.5 every whole-path ignore is consulted by the parent differ for every JSON type the schema admits there (three-valued evaluation of the lookup guard, atomic_paths included); R14.6 key filters stack (the filter calls the differ it was given).',
+    'C15': 'R15.5 TS makeClearedValue and Python make_cleared_value map each of the six JSON kinds to the same result kind (both chains evaluated exhaustively with their language\'s typing rules); R15.6 Python re-sorts entries by key alone, like the TS side.',
+    'C16': 'R16.5 no truthiness test of a line number / path element; R16.6 no class-level container written by renderer methods; R16.7 regexes stripping tool chatter are anchored at line start (re.M + ^, pattern parsed).',
+    'C17': 'R17.5 the sub-directory prefix is assembled in root-to-leaf order.',
+    'C18': 'R18.6 a config subcommand never turns "already absent" into a non-zero status that would stop the config-git chain.',
+    'C19': 'R19.3 additionally: the disk section is layered inside the MRO loop and not inside a loop over files; no directory of the search path can be skipped inside the reversed walk.',
+    'C20': 'R20.7 the store request is parsed before the output is opened; R20.8 start-up streams are rewound before each read; R20.9 handler methods store nothing in settings/params shared between requests (one named exemption); '
+           'R20.10 a non-JSON file counts as an empty notebook only behind a pure emptiness test.',
+}
